@@ -214,7 +214,11 @@ func (g *Gen) Cmd() *Cmd {
 		case g.chance(g.P.PTextArg):
 			c.Args = append(c.Args, &Arg{Text: g.Text()})
 		case g.chance(g.P.PMovesArg):
-			c.Args = append(c.Args, &Arg{Moves: g.Moves(4, false)})
+			if len(g.P.PoryKeys) > 0 && g.R.IntN(3) == 0 {
+				c.Args = append(c.Args, &Arg{Moves: g.ListWithPory(4, true, 0)})
+			} else {
+				c.Args = append(c.Args, &Arg{Moves: g.Moves(4, false)})
+			}
 		default:
 			c.Args = append(c.Args, g.plainArg())
 		}
